@@ -606,6 +606,9 @@ class Exec:
                 if bound is not None:
                     return bound
                 return ("param_const", c["param"])
+            if "static" in c:
+                # the address of a named static
+                return ("c", "static %s: %s" % (c["static"], c["display"]), c["ty"])
             if "uneval" in c:
                 pc = self.prog.consts.get(c["uneval"])
                 if pc is not None and "int" in pc:
